@@ -405,6 +405,16 @@ def call (C : Crypto) (st : State) (ctx : Ctx) (func : String) (args : List Byte
   | "domainSeparator", [] => .ok (st, [st.domain], [])
   | "minimumRotationDelay", [] => .ok (st, [encNat st.minDelay], [])
   | "operator", [] => if st.operator.isEmpty then .error .storageDecode else .ok (st, [st.operator], [])
+  -- the protocol's `upgradeContract(code, metadata, operator, signers...)` run by the OWNER: the code
+  -- stays this contract's; `upgrade` may set the operator and registers every given signer set
+  | "upgradeContract", _code :: _meta :: op :: signers =>
+    if ctx.caller != ctx.owner then .error .invalidSender else
+    match topFixed 32 op, signers.mapM (top decSigners) with
+    | some op, some ss =>
+      match upgrade C st ctx.now op ss with
+      | .ok (st', evs) => .ok (st', [], evs)
+      | .error e => .error e
+    | _, _ => .error .args
   | _, _ => .error .args
 
 /-- `init` on raw arguments -/
